@@ -6,7 +6,8 @@
      derive m p op        one accessor-producing call of the library on accessor p (the model)
      acc_base, acc_len    host address and EXACT number of designated bytes (nelem * size for arrays)
      inside p c           c designates only bytes of p
-     acc_valid p          p is an address range ending below 2^64 (true of every mapping)
+     acc_valid p          p is an address range ending below 2^64, no longer than isize::MAX (true of
+                          every Rust object and mapping; the contract of the unsafe constructors)
      fits p op            the request fits p, in unbounded arithmetic (no wrap-around)
      op_wf op             the alignment named by the request is a power of two (align_of always is) *)
 From VM Require Import Prelude.MachInt Prelude.Outcome Impl.Volatile Spec.C01 Suite.C01 Proofs.C01.
@@ -16,11 +17,18 @@ From VM Require Import Prelude.MachInt Prelude.Outcome Impl.Volatile Spec.C01 Su
 Theorem C01_model_ok : forall c, wf_case c -> ok_C01 c (run_C01 c) = true.
 Proof. exact C01_model_ok_lemma. Qed.
 
+(* what an accepting verdict of the checker means, for ANY observation (in particular the real
+   library's): every answer that is an accessor comes from a method that exists and its observed
+   bytes - own extent, nelem * size for arrays, guard length - lie inside the root slice *)
+Theorem C01_checker_sound : forall c obs, is_slice_root (c_rootk c) = true -> ok_C01 c obs = true ->
+  all_inside (c_len c) (root_geom c) (c_ops c) obs.
+Proof. exact checker_sound_lemma. Qed.
+
 (* whatever is requested, in both build profiles: an accessor that is handed out lies inside its
    parent (and is again a valid range, so the statement chains) *)
 Theorem C01_derive_contained : forall m p op c, acc_valid p -> op_wf op ->
   derive m p op = Val (Ok c) ->
-  acc_base p <= acc_base c /\ acc_base c + acc_len c <= acc_base p + acc_len p /\ acc_base c + acc_len c < W64.
+  acc_base p <= acc_base c /\ acc_base c + acc_len c <= acc_base p + acc_len p /\ acc_valid c.
 Proof. exact derive_contained_flat. Qed.
 
 (* a typed or atomic reference is only produced at a multiple of the type's alignment *)
@@ -44,8 +52,7 @@ Proof. exact derive_child_lemma. Qed.
 (* chains of derivations of ANY depth stay inside the root (induction over the request list) *)
 Theorem C01_chain_contained : forall ops m root c, acc_valid root -> Forall op_wf ops ->
   derive_chain m root ops = Val (Ok c) ->
-  acc_base root <= acc_base c /\ acc_base c + acc_len c <= acc_base root + acc_len root /\
-  acc_base c + acc_len c < W64.
+  acc_base root <= acc_base c /\ acc_base c + acc_len c <= acc_base root + acc_len root /\ acc_valid c.
 Proof. exact chain_contained_flat. Qed.
 
 Theorem C01_chain_aligned : forall ops m root c, acc_valid root -> Forall op_wf ops -> ops <> [] ->
@@ -53,9 +60,9 @@ Theorem C01_chain_aligned : forall ops m root c, acc_valid root -> Forall op_wf 
   match c with ATyped t | AAtomic t => tr_addr t mod tr_align t = 0 | _ => True end.
 Proof. exact chain_aligned_lemma. Qed.
 
-(* on the way to an accessor of a parent no longer than isize::MAX the pointer arithmetic
+(* on the way to an accessor of a valid parent the pointer arithmetic
    (ptr::add / ptr::offset) stays within its language-defined domain: no overflow, offset <= isize::MAX *)
-Theorem C01_ptr_arith_defined : forall m p op c, acc_valid p -> op_wf op -> acc_len p <= ISZ_MAX ->
+Theorem C01_ptr_arith_defined : forall m p op c, acc_valid p -> op_wf op ->
   derive m p op = Val (Ok c) -> ptr_add_defined (acc_base p) (acc_base c - acc_base p) /\
   acc_base c = acc_base p + (acc_base c - acc_base p).
 Proof. exact ptr_arith_defined_lemma. Qed.
@@ -110,11 +117,12 @@ Example C01_nonvacuous :
   derive Debug root (DGetAtomicRef u32 2) = Val (Err (DV (EMisaligned (W64 - 9) 4))) /\
   derive Debug root (DGetAtomicRef u32 3) = Val (Ok (AAtomic (TR (W64 - 8) 4 4))).
 Proof.
-  cbv zeta. split; [unfold acc_valid; rewrite W64_val; vm_compute; reflexivity|].
+  cbv zeta. split; [unfold acc_valid; rewrite W64_val; vm_compute; split; [reflexivity|discriminate]|].
   split; [repeat constructor|]. rewrite W64_val. vm_compute. repeat split.
 Qed.
 
 Print Assumptions C01_model_ok.
+Print Assumptions C01_checker_sound.
 Print Assumptions C01_derive_contained.
 Print Assumptions C01_derive_aligned.
 Print Assumptions C01_derive_exact.
